@@ -78,8 +78,18 @@ func matchCallee(canon, pat string) bool {
 		return true
 	}
 	if strings.HasPrefix(canon, "$dyn:") {
-		// calls through function values match only by the exact origin ("execute" for a parameter)
-		return canon == "$dyn:"+pat
+		// calls through function values match only by their origin: "execute" (a parameter), or
+		// "result.2:(Output).WrapWriter" (the third result of a call of WrapWriter)
+		if canon == "$dyn:"+pat {
+			return true
+		}
+		rest := canon[5:]
+		if i := strings.Index(rest, ":"); i >= 0 && strings.HasPrefix(rest, "result") {
+			if j := strings.Index(pat, ":"); j >= 0 && pat[:j] == rest[:i] {
+				return matchCallee(rest[i+1:], pat[j+1:])
+			}
+		}
+		return false
 	}
 	if strings.HasSuffix(canon, pat) {
 		c := canon[len(canon)-len(pat)-1]
@@ -600,6 +610,9 @@ func (vc *VC) callFrameCheck(ci *callInfo, fc *FuncContract) {
 	}
 	if fc != nil {
 		for _, u := range fc.Updates {
+			if u.Ghost.Name == "held" {
+				continue // the lock set is checked for balance at every return instead (lock-balance obligation)
+			}
 			if !has(u.Ghost.Name) {
 				bad = append(bad, "callee "+ci.name+" updates "+u.Ghost.Name)
 			}
@@ -1366,7 +1379,26 @@ func (vc *VC) ret(ins *ssa.Return) {
 		o.Detail["return"] = fmt.Sprint(k)
 	}
 	vc.updatesCheck(ins, env)
+	vc.lockBalance(ins)
 	vc.fnspecReturn(ins)
+}
+
+// lockBalance: a function returns with exactly the locks it was entered with (unless it declares updates held).
+func (vc *VC) lockBalance(ins *ssa.Return) {
+	key, _, ok := vc.ghostKey("held")
+	if !ok || vc.fc == nil {
+		return
+	}
+	for _, u := range vc.fc.Updates {
+		if u.Ghost.Name == "held" {
+			return
+		}
+	}
+	now, entry := vc.st.get(key), vc.entry.get(key)
+	if now == entry {
+		return
+	}
+	vc.oblige("lock-balance", fmt.Sprintf("return#%d", vc.counts["return"]), fmt.Sprintf("(= %s %s)", now, entry), vc.fc.allTags(), ins.Pos(), nil)
 }
 
 // updatesCheck: a verified function that declares "updates" must leave each named table exactly as the
